@@ -114,6 +114,114 @@ class ran_concurrently:
     modifies = []
 
 
+# ---------------------------------------------------------------- Scheduler.record_run_started / record_run_stopped
+
+
+class _Clock:
+    """time.monotonic_ns(): never decreases, and every recorded start / stop time was read from it earlier."""
+
+    @staticmethod
+    def monotonic_ns():
+        c = cur()
+        now = c.fresh(c.fresh_name("now"), INT)
+        sched = c.data["args"]["self"]
+        from vc import vcrt
+
+        for m in (sched.start_times, sched.stop_times):
+            k = tm.Var(c.fresh_name("k!bound"), INT)
+            c.pc.append(vcrt.quantified([(k.s, INT)], lambda m=m, k=k: tm.Implies(
+                m.contains_t(sym.wrap_int(k)), tm.Le(I(m.value_at(sym.wrap_int(k))), now))))
+        c.event("clock", now=now)
+        return sym.wrap_int(now)
+
+
+def _sched_times(a):
+    return ty.ObjOf(Scheduler, dict(start_times=ty.MapOf(ty.Int, ty.Int), stop_times=ty.MapOf(ty.Int, ty.Int),
+                                    run_counter=ty.Int), name="Scheduler").fresh("self")
+
+
+def _member_facts(m, key):
+    """Definitional instances for one key of a map: a member sits at its position in the sorted enumeration (so a
+    bound on every enumerated value bounds its value) and a map with a member is not empty."""
+    from vc import vcrt
+
+    c = cur()
+    vcrt.index_of(m, key)
+    cnt = c.decls.fun("count_" + m.ksort, [m.has.sort], INT)(m.has)
+    c.pc.append(tm.Implies(m.contains_t(key), tm.Gt(cnt, tm.mk_int(0))))
+
+
+def _rrs_post(self, step_i, succeeded, old, ghost):
+    """Retention (what ran_concurrently relies on): the stop time of a finished producer -- one recorded before, or the
+    step that just succeeded -- is still recorded, unchanged, as long as some run that is still in progress started no
+    later than that stop time.  Nothing else appears, and the step itself is no longer in progress."""
+    k, j = ghost.k, ghost.j
+    st0, sp0 = old.self.start_times, old.self.stop_times
+    st, sp = self.start_times, self.stop_times
+    for m in (st,):
+        _member_facts(m, j)
+    just = tm.And(tm.Eq(I(k), I(step_i)), B(succeeded))
+    was = sp0.contains_t(k)
+    in_progress = tm.And(st0.contains_t(j), tm.Ne(I(j), I(step_i)))
+    # the stop time in question: the new one for the step that just succeeded, else the recorded one
+    v_now = sp.value_at(k)
+    needed = tm.And(tm.Or(just, was), in_progress,
+                    tm.Or(just, tm.Le(I(st0.value_at(j)), I(sp0.value_at(k)))))
+    kept = tm.And(sp.contains_t(k), tm.Or(just, tm.Eq(I(v_now), I(sp0.value_at(k)))))
+    nothing_new = tm.Implies(sp.contains_t(k), tm.Or(just, was))
+    progress = tm.And(tm.Not(st.contains_t(step_i)),
+                      tm.Implies(tm.Ne(I(j), I(step_i)), tm.And(tm.Iff(st.contains_t(j), st0.contains_t(j)),
+                                                                  tm.Implies(st0.contains_t(j), tm.Eq(I(st.value_at(j)), I(st0.value_at(j)))))))
+    return wrap_bool(tm.And(tm.Implies(needed, kept), nothing_new, progress))
+
+
+def _rrs_inv(e):
+    """Pruning loop: an entry whose stop time is not older than the oldest start of a run in progress stays; the
+    entries of the snapshot that have not been visited yet are still there (so `del` finds its key)."""
+    k, p = e.ghost.k, I(e.q.p)
+    sp_pre, sp = e.pre.self.stop_times, e.self.stop_times
+    if getattr(e.seq, "distinct", None) is not None:
+        # the snapshot list(stop_times.items()) holds every key once (positions p and i, p and i - 1)
+        cur().pc.append(e.seq.distinct(p, e.i))
+        cur().pc.append(e.seq.distinct(p, tm.Sub(I(e.i), tm.mk_int(1))))
+    later = tm.And(tm.Le(I(e.i), p), tm.Lt(p, e.seq.length))
+    pk, pv = e.seq.elem(p)
+    return wrap_bool(tm.And(
+        tm.Implies(later, tm.And(sp.contains_t(pk), tm.Eq(I(sp.value_at(pk)), I(pv)))),
+        tm.Implies(tm.And(sp_pre.contains_t(k), tm.Ge(I(sp_pre.value_at(k)), I(e.oldest_start))),
+                   tm.And(sp.contains_t(k), tm.Eq(I(sp.value_at(k)), I(sp_pre.value_at(k))))),
+        tm.Implies(sp.contains_t(k), sp_pre.contains_t(k))))
+
+
+@contract("stepup/core/scheduler.py::Scheduler.record_run_stopped", props=["C03"])
+class record_run_stopped:
+    """The bookkeeping behind ran_concurrently: pruning never drops a stop time that a run still in progress (one
+    that started no later than that stop time) could be compared with."""
+
+    args = dict(self=_sched_times, step_i=ty.Int, succeeded=ty.Bool)
+    env = dict(time=_Clock)
+    ghost = dict(k=ty.Int, j=ty.Int)
+    ensures = _rrs_post
+    modifies = ["self.start_times", "self.stop_times"]
+    loops = {0: LoopSpec(invariant=_rrs_inv, forall=dict(p=ty.Int), havoc=("self",), modifies={"self": ["stop_times"]})}
+
+
+@contract("stepup/core/scheduler.py::Scheduler.record_run_started", props=["C03"])
+class record_run_started:
+    """The start time of the step is recorded (read from the clock now); no stop time changes."""
+
+    args = dict(self=_sched_times, step_i=ty.Int)
+    env = dict(time=_Clock)
+    ghost = dict(k=ty.Int)
+    ensures = lambda self, step_i, old, ghost: wrap_bool(tm.And(
+        self.start_times.contains_t(step_i),
+        tm.Iff(self.stop_times.contains_t(ghost.k), old.self.stop_times.contains_t(ghost.k)),
+        tm.Implies(old.self.stop_times.contains_t(ghost.k),
+                   tm.Eq(I(self.stop_times.value_at(ghost.k)), I(old.self.stop_times.value_at(ghost.k)))),
+        tm.Implies(tm.Ne(I(ghost.k), I(step_i)), tm.Iff(self.start_times.contains_t(ghost.k), old.self.start_times.contains_t(ghost.k)))))
+    modifies = ["self.start_times", "self.run_counter"]
+
+
 # ---------------------------------------------------------------- compute_inp_hashes
 
 
